@@ -553,6 +553,17 @@ pub fn execute_with(c: &SCase, light: bool) -> SRun {
                     );
                 }
             }
+            // An exact size hint of zero is the other way a body says "nothing more will come"
+            // (hyper then never polls it): not while the abort error is undelivered.
+            if let Some(from) = abort_at_step {
+                if let Some((i, _)) = it.t.steps.iter().enumerate().skip(from).find(|(_, s)| s.upper == Some(0)) {
+                    issue(
+                        &mut issues,
+                        "abort:empty-size-hint-while-error-pending",
+                        format!("size_hint() was exactly 0 at step {i}, after the abort and before the error was delivered"),
+                    );
+                }
+            }
             if decode {
                 let d = gunzip_prefix(&received);
                 if matches!(d.status, Status::Invalid(_)) || !accepted.starts_with(&d.out) {
